@@ -110,6 +110,32 @@ Theorem C05_translated_FitnessEvalLimitReached c fuel limit ws s : levels_ok c (
   exists b, answers (gen_FitnessEvalLimitReached c fuel limit ws) s b /\ gsc_eval (GEvalLimit limit ws) (height c) (ms s) = Some b.
 Proof. exact (FitnessEvalLimitReached_ok c fuel limit ws s). Qed.
 Print Assumptions C05_translated_FitnessEvalLimitReached.
+(* "evaluation limits with any weighting": what FitnessEvalLimitReached makes of its `weights` argument (None, a strategy name, a list) — the translated
+   _transform_weights under the translated guard of __call__, with the translated number of levels — is the list the machine's limit is configured with *)
+Theorem C05_translated_weights_normalisation c w : 0 < height c -> w_as_list (gen_effective_weights c w) = weights_of (height c) w.
+Proof. exact (effective_weights_ok c w). Qed.
+Print Assumptions C05_translated_weights_normalisation.
+Theorem C05_translated_weights_normalised_once c c' w ws : w_as_list (gen_effective_weights c w) = Some ws ->
+  gen_effective_weights c' (WList ws) = Some (WList ws).
+Proof. exact (effective_weights_idem c c' w ws). Qed.
+Print Assumptions C05_translated_weights_normalised_once.
+Theorem C05_translated_FitnessEvalLimitReached_any_weighting c fuel limit w ws s : levels_ok c (demes (ms s)) -> 0 < height c ->
+  w_as_list (gen_effective_weights c w) = Some ws ->
+  exists b, answers (gen_FitnessEvalLimitReached c fuel limit ws) s b /\
+            gsc_eval (GEvalLimit limit (weights_or_nil (height c) w)) (height c) (ms s) = Some b.
+Proof. exact (FitnessEvalLimitReached_spec_ok c fuel limit w ws s). Qed.
+Print Assumptions C05_translated_FitnessEvalLimitReached_any_weighting.
+Theorem C05_equal_weighting_is_the_total c limit w s : levels_ok c (demes (ms s)) -> w = WEqual \/ w = WNone ->
+  gsc_eval (GEvalLimit limit (weights_or_nil (height c) w)) (height c) (ms s) = Some (limit <=? total_evals (demes (ms s))).
+Proof. exact (equal_weights_total c limit w s). Qed.
+Print Assumptions C05_equal_weighting_is_the_total.
+Theorem C05_root_weighting_counts_the_root_level_only c limit s : 0 < height c ->
+  gsc_eval (GEvalLimit limit (weights_or_nil (height c) WRoot)) (height c) (ms s)
+  = Some (limit <=? fold_right (fun d a => (if Nat.eqb (d_lvl d) 0 then d_evals d else 0) + a) 0 (demes (ms s))).
+Proof. exact (root_weights_root_only c limit s). Qed.
+Print Assumptions C05_root_weighting_counts_the_root_level_only.
+Example C05_weights_examples : weights_of 3 WRoot = Some [1; 0; 0] /\ weights_of 3 WNone = Some [1; 1; 1] /\ weights_of 2 (WList [2; 3]) = Some [2; 3] /\ weights_of 3 WOtherStr = None.
+Proof. repeat split. Qed.
 Theorem C05_translated_NoActiveNonrootDemes c fuel n s :
   exists b, answers (gen_NoActiveNonrootDemes c fuel n) s b /\ gsc_eval (GNoActiveNonroot n) (height c) (ms s) = Some b.
 Proof. exact (NoActiveNonrootDemes_ok c fuel n s). Qed.
